@@ -11,6 +11,7 @@ from typing import (
     Any,
     Callable,
     Dict,
+    Iterable,
     Iterator,
     List,
     Literal,
@@ -409,6 +410,9 @@ class GeoBoxBase:
         if g.crs != self._crs:
             # densify: straight edges are curves in the other projection
             g = g.to_crs(self._crs, resolution="auto")
+        elif not self.linear:
+            # .. and in the pixel plane of a non-linear mapping
+            g = g.segmented(geom._auto_resolution(g))
         g = g.transform(self.wld2pix)
         return Geometry(g.geom, crs=None)
 
@@ -1472,8 +1476,15 @@ class GeoboxTiles:
         if poly.is_empty:
             return  # bounds of an empty geometry are NaN
 
-        yy, xx = self.range_from_bbox(poly.boundingbox)
-        for idx in itertools.product(yy, xx):
+        if self._gbox.linear:
+            yy, xx = self.range_from_bbox(poly.boundingbox)
+            candidates: Iterable[Tuple[int, int]] = itertools.product(yy, xx)
+        else:
+            # GCPs: world to pixel is a fit of its own, it only approximates the
+            # inverse of the mapping tile footprints come from
+            candidates = self._all_tiles()
+
+        for idx in candidates:
             gbox = self[idx]
             if not poly.disjoint(gbox.extent):
                 yield idx
